@@ -1,5 +1,6 @@
 import BinlogVerif.Reader.Proto
 import BinlogVerif.Mser.Proto
+import BinlogVerif.Conc.Proto
 open BinlogVerif BinlogVerif.Proto
 
 def hexArg (s : String) : Option Bytes := if s == "-" then some [] else Bytes.ofHex s
@@ -13,6 +14,16 @@ def handle (line : String) : String :=
     | some p, some bs => cmdFilter p bs
     | _, _ => "bad-op"
   | "segmap" :: ops => cmdSegMap ops
+  | ["time", f, c, k] =>
+    match hexArg f, parseClockSync c, k.toNat? with
+    | some f, some c, some k => cmdTime f c k
+    | _, _, _ => "bad-op"
+  | ["bread", s, f, d, h] =>
+    match hexArg f, hexArg d, hexArg h with
+    | some f, some d, some h => cmdBread (s == "1") f d h
+    | _, _, _ => "bad-op"
+  | "qexplore" :: toks => BinlogVerif.ConcProto.cmdQExplore toks
+  | "queue" :: toks => BinlogVerif.ConcProto.cmdQueue toks
   | "mser" :: toks => BinlogVerif.Mser.Proto.cmdMser toks
   | ["print", s, h] => match hexArg h with | some b => cmdPrint (s == "1") b | none => "bad-op"
   | _ => "bad-op"
